@@ -12,6 +12,9 @@ func GasToRefund
 // C07: a fee is only returned (the tx only passes) if its fee cap covers the base fee, and the fee is exactly
 // gasLimit x effective gas price in the given (EVM) denomination.
 func VerifyFee
+    // the returned sdk.Coins{{denom, fee}} literal is not sanitised; a zero fee returns before it, and its consumers (deductFee:
+    // IsZero, authante.DeductFees: IsValid) refuse or ignore anything else that is not a positive amount
+    allow coinslit
     let b = ite(baseFee != nil, *baseFee, 0)
     let effFee = txd_effprice(txData, b) * txd_gas(txData)
     requires nonnil: txData != nil
